@@ -11,15 +11,22 @@ Init == fin \in {0, 1} /\ op \in Opcodes /\ n \in Lens /\ key \in Keys /\ masked
 Next == UNCHANGED vars
 Wire == IF masked = 1 THEN ClientFrame(fin, op, Payload(n), key)
         ELSE ServerFrame(fin, 0, op, Payload(n))
-RoundTrip ==
+Small == n <= 300
+\* large payloads: header and key only (the payload bytes are compared by the conformance run)
+HeadOnly == Hdr(fin, 0, op, masked, n) \o (IF masked = 1 THEN key ELSE <<>>)
+HeaderExact ==
+  LET f == Parse(HeadOnly, 1) IN
+    n > 0 => (~f.ok /\ ~f.huge /\ f.need = Len(HeadOnly) + n /\ Len(HeadOnly) = HdrLen(n) + 4 * masked)
+RoundTrip == Small =>
   LET f == Parse(Wire, 1) IN
     /\ f.ok /\ f.fin = fin /\ f.op = op /\ f.rsv = 0 /\ f.masked = masked
     /\ f.len = n /\ f.payload = Payload(n) /\ f.next = Len(Wire) + 1
     /\ (masked = 1 => f.key = key)
-Shortest ==
+Shortest == Small =>
   LET f == Parse(Wire, 1) IN
     /\ (n <= 125 <=> f.form = 0)
     /\ (n > 125 /\ n <= 65535 <=> f.form = 2)
     /\ (n > 65535 <=> f.form = 8)
-Prefixes == \A k \in 0..(IF Len(Wire) > 14 THEN 14 ELSE Len(Wire) - 1) : ~Parse(SubSeq(Wire, 1, k), 1).ok
+ShortestHeader == Len(Hdr(fin, 0, op, masked, n)) = (IF n <= 125 THEN 2 ELSE IF n <= 65535 THEN 4 ELSE 10)
+Prefixes == Small => \A k \in 0..(IF Len(Wire) > 14 THEN 14 ELSE Len(Wire) - 1) : ~Parse(SubSeq(Wire, 1, k), 1).ok
 =============================================================================
